@@ -70,7 +70,7 @@ func New(o Opt, parent *Cert) *Cert {
 		IsCA:                  o.CA,
 	}
 	if o.CA {
-		t.KeyUsage |= x509.KeyUsageCertSign
+		t.KeyUsage |= x509.KeyUsageCertSign | x509.KeyUsageCRLSign
 	}
 	signer, pt := key, t
 	if parent != nil {
